@@ -235,6 +235,19 @@ pub(crate) fn scheduler_reset() {
     }
 }
 
+/// the coroutine that was resumed — run directly or put on a run queue; which of the two is not the obligations' business
+pub(crate) fn resumed_ref() -> Option<&'static CoroutineImpl> {
+    unsafe {
+        match (&*(&raw const RAN)).as_ref() {
+            Some(c) => Some(c),
+            None => (&*(&raw const SCHEDULED)).as_ref(),
+        }
+    }
+}
+pub(crate) fn resumed_id() -> Option<usize> {
+    resumed_ref().map(|c| c.shim_id())
+}
+
 pub(crate) fn cancel_panic_stub() -> ! {
     ev(E_CANCEL_PANIC);
     unsafe {
